@@ -53,7 +53,8 @@ type StructField struct {
 // JSONName returns the field name used by Go json package,
 // that is, taking into account the json struct tag.
 func (st StructField) JSONName() string {
-	if name := st.Tag.Get("json"); name != "" {
+	// the tag may carry options : `json:"name,omitempty"`
+	if name, _, _ := strings.Cut(st.Tag.Get("json"), ","); name != "" {
 		return name
 	}
 	return st.Field.Name()
